@@ -91,6 +91,10 @@ PROPS = {
 HOOK_COMMITS = ["609775d"]
 
 ENGINES = [
+    {"name": "rfassembly", "path": "harness/engines/rfassembly.py + spec/Pins.tla", "serves_properties": [],
+     "kind_free_text": "TLC over the interleaving of sub-pulses and blips that dz_pins assembles (mutual exclusion, equal lengths, final layout); final model states compared with the returned arrays (reported by ./check extra)"},
+    {"name": "leja", "path": "harness/engines/leja.py + spec/Leja.tla", "serves_properties": [],
+     "kind_free_text": "TLC over the column-swap mechanism of sigpy.util.leja on Gaussian-integer root sets (ties nondeterministic) against the greedy meaning; the code's answer in every dtype/container/layout must be one behaviour of the model (reported by ./check extra)"},
     {"name": "splitting", "path": "harness/engines/splitting.py + spec/ADMM.tla, ALM.tla, AltMin.tla, Newton.tla, GerchbergSaxton.tla", "serves_properties": ["C15"],
      "kind_free_text": "TLC over exact rational trajectories of the remaining Alg subclasses, one action per sub-step of _update (fixed points, Lyapunov functions, line-search termination); every dumped state replayed on the real class through caller closures; counter / budget / early-stop clauses reported under C15, other disagreements under ./check extra"},
     {"name": "purity", "path": "harness/engines/purity.py + spec/PurityTrace.tla", "serves_properties": ["C02"],
@@ -165,7 +169,7 @@ MANIFEST_TEXT = {
 NOT_APPLICABLE = {}
 
 # engines whose SPEC-tagged disagreements (conformance to the specification beyond the listed properties) are reported by `./check extra`
-EXTRA_ENGINES = [("splitting", "splitting", "run"), ("alg_protocol", "alg_protocol", "run"), ("rfassembly", "rfassembly", "run")]
+EXTRA_ENGINES = [("splitting", "splitting", "run"), ("alg_protocol", "alg_protocol", "run"), ("rfassembly", "rfassembly", "run"), ("leja", "leja", "run")]
 
 MANIFEST_TEXT["C18"] = {
     "text": "PoissonSearch.tla models the slope bisection on a float lattice with an arbitrary (non-monotone) acceleration function; TLC checks OkIsWithinTol and the liveness property Terminates (the loop without the collapse test is kept as a negative control that must fail). poisson() is run on the real code with _poisson wrapped under a watchdog; every call (probes as slope ranks + integer facts about the mask, RNG state crc, reproducibility memo) is validated by TLC against PoissonTrace.tla.",
